@@ -105,10 +105,6 @@ class RxModel:
         self.accepted = 0
 
 
-class Violation(Exception):
-    pass
-
-
 # ------------------------------------------------------------------------------------------- engine
 
 class Engine:
@@ -175,13 +171,11 @@ class Engine:
         self.in_header = None             # words collected so far
         self.last_hdr_end = -100
         self.hdr_ends = []                # (cycle_end, verdict)
-        self.accept_cycles = {}           # cycle_end -> True for accepted headers (for bins)
-        self.q_prev = None                # (valid, ready, words) of previous cycle
         self.first_trigger = None
         self.last_trigger = None
         self.reset_seen = False
         self.enable_rise = None
-        self.advert = None                # {"lgood": None|n, "allowed": set, "deadline": cycle}
+        self.advert = None                # {"lgood": None|n, "allowed": set, "budget": ready-cycles left}
         self.exp_lo = self.exp_hi = 0
         self.race = False
         self.epoch = 0
@@ -193,7 +187,6 @@ class Engine:
         self.p_next_seq = 0
         self.p_lbads = 0
         self.p_tag = rng.randrange(1 << 16)
-        self.p_sent_since_retry = 0
 
     # ================================================================ helpers
     def fail(self, symptom, detail):
@@ -492,7 +485,6 @@ class Engine:
             if len(m.lgood_due) >= 2:
                 res.bin("ack_backlog_ge2")
             self.accept_window = range(cyc + 1, cyc + 5)
-            self.accept_cycles[cyc] = True
         res.bin("hdr_" + kind)
         res.event("headers_judged")
         self.hdr_ends.append((cyc, kind))
